@@ -1,0 +1,64 @@
+//go:build verif
+
+package tls
+
+// Test equipment for property C21 (compressed certificates). Add-only: drives the unexported
+// (*clientHandshakeStateTLS13).decompressCert and utlsCompressedCertificateMsg codec.
+
+import (
+	"net"
+	"time"
+)
+
+type verifC21Conn struct{ wrote []byte }
+
+func (c *verifC21Conn) Read(p []byte) (int, error) { return 0, net.ErrClosed }
+func (c *verifC21Conn) Write(p []byte) (int, error) {
+	c.wrote = append(c.wrote, p...)
+	return len(p), nil
+}
+func (c *verifC21Conn) Close() error                       { return nil }
+func (c *verifC21Conn) LocalAddr() net.Addr                { return &net.TCPAddr{} }
+func (c *verifC21Conn) RemoteAddr() net.Addr               { return &net.TCPAddr{} }
+func (c *verifC21Conn) SetDeadline(t time.Time) error      { return nil }
+func (c *verifC21Conn) SetReadDeadline(t time.Time) error  { return nil }
+func (c *verifC21Conn) SetWriteDeadline(t time.Time) error { return nil }
+
+// VerifC21Result is what decompressCert did: the recovered certificate message re-marshalled (nil if none),
+// its certificate entries, the returned error and the alert description written to the connection (-1 if none).
+type VerifC21Result struct {
+	Msg   []byte
+	Certs [][]byte
+	Err   error
+	Alert int
+}
+
+// VerifDecompressCert calls decompressCert on a fresh client state that advertised the given algorithms.
+func VerifDecompressCert(advertised []CertCompressionAlgo, algorithm uint16, uncompressedLength uint32, compressed []byte) VerifC21Result {
+	rc := &verifC21Conn{}
+	uconn := UClient(rc, &Config{InsecureSkipVerify: true}, HelloCustom)
+	uconn.certCompressionAlgs = advertised
+	hs := &clientHandshakeStateTLS13{c: uconn.Conn, uconn: uconn}
+	m := utlsCompressedCertificateMsg{algorithm: algorithm, uncompressedLength: uncompressedLength, compressedCertificateMessage: compressed}
+	cm, err := hs.decompressCert(m)
+	res := VerifC21Result{Err: err, Alert: -1}
+	if len(rc.wrote) >= 7 && rc.wrote[0] == 21 { // plaintext alert record: type, version(2), length(2), level, description
+		res.Alert = int(rc.wrote[6])
+	}
+	if cm != nil {
+		res.Msg, _ = cm.marshal()
+		res.Certs = cm.certificate.Certificate
+	}
+	return res
+}
+
+func VerifCompressedCertMarshal(algorithm uint16, uncompressedLength uint32, data []byte) ([]byte, error) {
+	m := utlsCompressedCertificateMsg{algorithm: algorithm, uncompressedLength: uncompressedLength, compressedCertificateMessage: data}
+	return m.marshal()
+}
+
+func VerifCompressedCertUnmarshal(b []byte) (ok bool, algorithm uint16, uncompressedLength uint32, data []byte) {
+	var m utlsCompressedCertificateMsg
+	ok = m.unmarshal(b)
+	return ok, m.algorithm, m.uncompressedLength, m.compressedCertificateMessage
+}
